@@ -39,6 +39,11 @@ def native_sweep(script, what, quick, thorough):
 
 
 REGISTRY = {
+    'C10': dict(module='contracts.C10', level='proof',
+                native=native_sweep('c10_farfield.py', 'independent radiation integral (current moments at pulse points, image currents), dBi vs V/m per polarisation from the printed tables, power sum, sqrt(power)/distance scaling, 360-degree periodicity, zenith independence', 25, 800),
+                undecided=['the far field is the radiation integral of the solved pulse currents (vectorised image loop) -- native sweep only',
+                           '360-degree periodicity and zenith/azimuth independence -- native sweep only'],
+                trusted=['np.log / np.sqrt as uninterpreted functions with the listed axioms; the slice is executed for one direction (1x1 arrays): the statements are elementwise numpy operations']),
     'C11': dict(module='contracts.C11', level='proof',
                 native=native_sweep('c11_ground.py', 'currents over real ground == ideal ground; medium split; far medium beyond every reflection point; sigma = 1e12 vs ideal ground (1..2 media, linear/circular boundary, radials)', 40, 1500),
                 undecided=['pattern converges to ideal ground as conductivity grows (limit; vectorised Fresnel branch)',
